@@ -755,3 +755,180 @@ pub fn gen_ids(seed: u64) -> Scenario {
     }
     sc
 }
+
+/// Delay choices around a timeout value.
+fn around(r: &mut Rng, t: u64) -> u64 {
+    match r.below(9) {
+        0 => 0,
+        1 => t / 2,
+        2 => t.saturating_sub(1),
+        3 => t,
+        4 => t + 1,
+        5 => 2 * t,
+        6 => 3 * t,
+        7 => r.below(t + 1),
+        _ => t + r.below(2 * t + 1),
+    }
+}
+
+/// Family TIME: timed and untimed operations mixed, replies before / at / after deadlines,
+/// item gaps around the per-item timeout. Writes are accepted at once.
+pub fn gen_time(seed: u64) -> Scenario {
+    let mut r = Rng::new(seed);
+    let mut sc = Scenario::new("TIME");
+    sc.knobs = gen_knobs(&mut r, false);
+    sc.knobs.write_quota = 0;
+    sc.knobs.write_pending_pm = 0;
+    sc.knobs.net_delay_max_ms = *r.pick(&[0, 0, 1, 3]);
+    let nclients = 1 + r.usize(3);
+    for c in 0..nclients {
+        let mut cs = ClientScript { steps: vec![], start_delay_ms: *r.pick(&[0, 0, 1, 7]) };
+        let n = 1 + r.usize(6);
+        let mut slot = 0usize;
+        for k in 0..n {
+            let tok = format!("c{c}k{k}");
+            let t = *r.pick(&[1u64, 2, 5, 10, 50, 100, 1000, 60_000]);
+            let timed = r.chance(2, 3);
+            let timeout = if timed { Some(t) } else { None };
+            match r.below(10) {
+                0..=4 => {
+                    let op = gen_single_op(&mut r, &tok);
+                    let mut plan = gen_single_plan(&mut r, &op, &tok, &[0], false);
+                    if let ReplyPlan::Single { after_ms, .. } = &mut plan {
+                        *after_ms = around(&mut r, t);
+                    }
+                    if timed && r.chance(1, 5) {
+                        plan = ReplyPlan::Silent;
+                    }
+                    sc.plan.by_token.insert(tok.clone(), plan);
+                    cs.steps.push(Step::Op { token: tok, op, mods: Mods { timeout_ms: timeout, controls: None, opts: None }, cancel_after_polls: None });
+                }
+                5..=6 => {
+                    let mut plan = gen_items_plan(&mut r, &tok, 5, true, &[0]);
+                    if let ReplyPlan::Items { items, done, .. } = &mut plan {
+                        for it in items.iter_mut() {
+                            it.gap_ms = if r.chance(1, 2) { 0 } else { around(&mut r, t) };
+                        }
+                        if let Some(d) = done {
+                            d.gap_ms = if r.chance(1, 2) { 0 } else { around(&mut r, t) };
+                        }
+                        if timed && r.chance(1, 6) {
+                            *done = None;
+                        }
+                    }
+                    sc.plan.by_token.insert(tok.clone(), plan);
+                    cs.steps.push(Step::Op {
+                        token: tok.clone(),
+                        op: OpSpec::Search(simple_search(&tok, &mut r)),
+                        mods: Mods { timeout_ms: timeout, controls: None, opts: None },
+                        cancel_after_polls: None,
+                    });
+                }
+                _ => {
+                    let mut plan = gen_items_plan(&mut r, &tok, 5, true, &[0]);
+                    let mut n_items = 0;
+                    if let ReplyPlan::Items { items, done, .. } = &mut plan {
+                        for it in items.iter_mut() {
+                            it.gap_ms = if r.chance(1, 2) { 0 } else { around(&mut r, t) };
+                        }
+                        if let Some(d) = done {
+                            d.gap_ms = if r.chance(1, 2) { 0 } else { around(&mut r, t) };
+                        }
+                        if timed && r.chance(1, 6) {
+                            *done = None;
+                        }
+                        n_items = items.len();
+                    }
+                    sc.plan.by_token.insert(tok.clone(), plan);
+                    let adapter = if r.chance(1, 2) { Adapter::Direct } else { Adapter::EntriesOnly };
+                    cs.steps.push(Step::Open { token: tok.clone(), slot, search: simple_search(&tok, &mut r), adapter, mods: Mods { timeout_ms: timeout, controls: None, opts: None } });
+                    // untimed streams must not block: read at most to the end
+                    let reads = if timed { n_items + 1 + r.usize(2) } else { n_items + 1 };
+                    for _ in 0..reads {
+                        if r.chance(1, 6) {
+                            cs.steps.push(Step::Sleep { ms: around(&mut r, t).min(5_000) });
+                        }
+                        cs.steps.push(Step::Next { slot, cancel_after_polls: None });
+                    }
+                    cs.steps.push(Step::Finish { slot });
+                    slot += 1;
+                }
+            }
+            if r.chance(1, 8) {
+                cs.steps.push(Step::Barrier);
+            }
+        }
+        cs.steps.push(Step::Barrier);
+        sc.clients.push(cs);
+    }
+    // barriers must be matched across clients: give every client the same number
+    let maxb = sc.clients.iter().map(|c| c.steps.iter().filter(|s| matches!(s, Step::Barrier)).count()).max().unwrap_or(0);
+    for c in sc.clients.iter_mut() {
+        let have = c.steps.iter().filter(|s| matches!(s, Step::Barrier)).count();
+        for _ in have..maxb {
+            c.steps.push(Step::Barrier);
+        }
+    }
+    sc.id_table = gen_id_start(&mut r);
+    sc
+}
+
+/// Base scenario of family FAULT: a small MUX-like exchange without cancellations and timeouts,
+/// plus a "late" client that issues one operation long after everything else.
+pub fn gen_fault_base(seed: u64) -> Scenario {
+    let mut r = Rng::new(seed);
+    let mut sc = Scenario::new("FAULT");
+    sc.knobs = gen_knobs(&mut r, false);
+    sc.knobs.net_delay_max_ms = *r.pick(&[0, 0, 1, 2]);
+    if let Chunking::Random { max } = &mut sc.knobs.chunking {
+        *max = (*max).max(3);
+    }
+    sc.knobs.max_read = *r.pick(&[0, 0, 0, 7, 64, 4096]);
+    sc.knobs.write_quota = *r.pick(&[0, 0, 0, 7, 64]);
+    let nclients = 1 + r.usize(3);
+    for c in 0..nclients {
+        let mut cs = ClientScript { steps: vec![], start_delay_ms: *r.pick(&[0, 0, 1]) };
+        let n = 1 + r.usize(4);
+        let mut slot = 0;
+        for _ in 0..n {
+            let tok = format!("c{c}s{}", cs.steps.len());
+            match r.below(10) {
+                0..=4 => {
+                    let op = gen_single_op(&mut r, &tok);
+                    let plan = gen_single_plan(&mut r, &op, &tok, &[0, 0, 1, 3], false);
+                    sc.plan.by_token.insert(tok.clone(), plan);
+                    cs.steps.push(Step::Op { token: tok, op, mods: Mods::default(), cancel_after_polls: None });
+                }
+                5..=6 => {
+                    let plan = gen_items_plan(&mut r, &tok, 3, true, &[0, 0, 1]);
+                    sc.plan.by_token.insert(tok.clone(), plan);
+                    cs.steps.push(Step::Op { token: tok.clone(), op: OpSpec::Search(simple_search(&tok, &mut r)), mods: Mods::default(), cancel_after_polls: None });
+                }
+                _ => {
+                    let plan = gen_items_plan(&mut r, &tok, 3, true, &[0, 0, 1]);
+                    let n_items = match &plan {
+                        ReplyPlan::Items { items, .. } => items.len(),
+                        _ => 0,
+                    };
+                    sc.plan.by_token.insert(tok.clone(), plan);
+                    let adapter = if r.chance(1, 2) { Adapter::Direct } else { Adapter::EntriesOnly };
+                    cs.steps.push(Step::Open { token: tok.clone(), slot, search: simple_search(&tok, &mut r), adapter, mods: Mods::default() });
+                    let reads = if r.chance(2, 3) { n_items + 1 } else { r.usize(n_items + 1) };
+                    for _ in 0..reads {
+                        cs.steps.push(Step::Next { slot, cancel_after_polls: None });
+                    }
+                    if r.chance(3, 4) {
+                        cs.steps.push(Step::Finish { slot });
+                    }
+                    slot += 1;
+                }
+            }
+        }
+        sc.clients.push(cs);
+    }
+    // the late client
+    let op = OpSpec::SimpleBind { dn: "late".into(), pw: "x".into() };
+    sc.plan.by_token.insert("late".into(), ReplyPlan::Single { after_ms: 0, res: ResultSpec::simple(0, "late:reply"), ctrls: None, extra: vec![] });
+    sc.clients.push(ClientScript { steps: vec![Step::Sleep { ms: 10_000 }, Step::Op { token: "late".into(), op, mods: Mods::default(), cancel_after_polls: None }], start_delay_ms: 0 });
+    sc
+}
